@@ -122,3 +122,343 @@ Theorem c03_code_length_routines : forall m ,
   length_site_ok m sites_libwifi_get_action_length "action->fixed_parameters.details.detail_length" 256 (24 + 1).
 Proof. exact code_length_routines. Qed.
 Print Assumptions c03_code_length_routines.
+
+(* ---- the libwifi_create_* generators AS TRANSLATED (Gen/Sites.v), for EVERY environment (nothing assumed about the prior contents of the object: the translated memset of the
+   whole object zeroes it) and every argument value: the first call is memset(obj, 0, sizeof obj) with the size of Gen/Layout.v; type and subtype are the header's enumerators; the three
+   addresses are copied into addr1, addr2, addr3 from the stated arguments; every assigned fixed parameter is its argument or the documented default; every other member reads 0; the
+   tag-carrying ones add SSID (strlen octets), DS parameter (1 octet), rates in that order and return the first non-zero answer at once.  mgmt_events, ev_add_tag, reads_zero,
+   untouched ... are defined in Proofs/CodeGen.v. ---- *)
+From Coq Require Import String.
+From LW Require Import Base.CExpr Gen.Sites Gen.Consts Gen.Layout Spec.CodeSpec Proofs.CodeGen.
+Local Open Scope string_scope.
+Local Open Scope Z_scope.
+
+Theorem c03_code_create_action : forall m rho cat,
+  0 <= cat < 256 ->
+  let rho0 := upd rho "category" cat in
+  exists rho',
+    exec 40 m rho0 [] body_libwifi_create_action =
+      Returned (Some 0) rho' (mgmt_events rho "action" sizeof_libwifi_action "receiver" "transmitter" "address3") /\
+    rho' "action->frame_header.frame_control.type" = c_TYPE_MANAGEMENT /\
+    rho' "action->frame_header.frame_control.subtype" = c_SUBTYPE_ACTION /\
+    rho' "action->fixed_parameters.category" = cat /\
+    rho' "action->fixed_parameters.details.detail_length" = 0 /\
+    rho' "action->fixed_parameters.details.detail" = 0 /\
+    reads_zero rho' "action->frame_header." mgmt_rest /\
+    untouched "action->"
+      ["action->frame_header.frame_control.type"; "action->frame_header.frame_control.subtype"; "action->fixed_parameters.category"]
+      ["action->frame_header.addr1"; "action->frame_header.addr2"; "action->frame_header.addr3"] rho'.
+Proof. exact code_create_action. Qed.
+Print Assumptions c03_code_create_action.
+
+Theorem c03_code_create_action_no_ack : forall m rho cat,
+  0 <= cat < 256 ->
+  let rho0 := upd rho "category" cat in
+  exists rho',
+    exec 40 m rho0 [] body_libwifi_create_action_no_ack =
+      Returned (Some 0) rho' (mgmt_events rho "action" sizeof_libwifi_action "receiver" "transmitter" "address3") /\
+    rho' "action->frame_header.frame_control.type" = c_TYPE_MANAGEMENT /\
+    rho' "action->frame_header.frame_control.subtype" = c_SUBTYPE_ACTION_NOACK /\
+    rho' "action->fixed_parameters.category" = cat /\
+    rho' "action->fixed_parameters.details.detail_length" = 0 /\
+    rho' "action->fixed_parameters.details.detail" = 0 /\
+    reads_zero rho' "action->frame_header." mgmt_rest /\
+    untouched "action->"
+      ["action->frame_header.frame_control.type"; "action->frame_header.frame_control.subtype"; "action->fixed_parameters.category"]
+      ["action->frame_header.addr1"; "action->frame_header.addr2"; "action->frame_header.addr3"] rho'.
+Proof. exact code_create_action_no_ack. Qed.
+Print Assumptions c03_code_create_action_no_ack.
+
+Theorem c03_code_create_atim : forall m rho,
+  exists rho',
+    exec 40 m rho [] body_libwifi_create_atim =
+      Returned (Some 0) rho' (mgmt_events rho "atim" sizeof_libwifi_atim "transmitter" "receiver" "address3") /\
+    rho' "atim->frame_header.frame_control.type" = c_TYPE_MANAGEMENT /\
+    rho' "atim->frame_header.frame_control.subtype" = c_SUBTYPE_ATIM /\
+    reads_zero rho' "atim->frame_header." mgmt_rest /\
+    untouched "atim->"
+      ["atim->frame_header.frame_control.type"; "atim->frame_header.frame_control.subtype"]
+      ["atim->frame_header.addr1"; "atim->frame_header.addr2"; "atim->frame_header.addr3"] rho'.
+Proof. exact code_create_atim. Qed.
+Print Assumptions c03_code_create_atim.
+
+Theorem c03_code_create_auth : forall m rho alg seq st,
+  0 <= alg < 65536 -> 0 <= seq < 65536 -> 0 <= st < 65536 ->
+  let rho0 := upd (upd (upd rho "algorithm_number" alg) "transaction_sequence" seq) "status_code" st in
+  exists rho',
+    exec 40 m rho0 [] body_libwifi_create_auth =
+      Returned (Some 0) rho' (mgmt_events rho "auth" sizeof_libwifi_auth "receiver" "transmitter" "address3") /\
+    rho' "auth->frame_header.frame_control.type" = c_TYPE_MANAGEMENT /\
+    rho' "auth->frame_header.frame_control.subtype" = c_SUBTYPE_AUTH /\
+    rho' "auth->fixed_parameters.algorithm_number" = alg /\
+    rho' "auth->fixed_parameters.transaction_sequence" = seq /\
+    rho' "auth->fixed_parameters.status_code" = st /\
+    rho' "auth->tags.length" = 0 /\ rho' "auth->tags.parameters" = 0 /\
+    reads_zero rho' "auth->frame_header." mgmt_rest /\
+    untouched "auth->"
+      ["auth->frame_header.frame_control.type"; "auth->frame_header.frame_control.subtype";
+       "auth->fixed_parameters.algorithm_number"; "auth->fixed_parameters.transaction_sequence"; "auth->fixed_parameters.status_code"]
+      ["auth->frame_header.addr1"; "auth->frame_header.addr2"; "auth->frame_header.addr3"] rho'.
+Proof. exact code_create_auth. Qed.
+Print Assumptions c03_code_create_auth.
+
+Theorem c03_code_create_deauth : forall m rho reason,
+  0 <= reason < 65536 ->
+  let rho0 := upd rho "reason_code" reason in
+  exists rho',
+    exec 40 m rho0 [] body_libwifi_create_deauth =
+      Returned (Some 0) rho'
+        (mgmt_events rho "deauth" sizeof_libwifi_deauth "receiver" "transmitter" "address3" ++
+         [ev_memcpy rho "&deauth->fixed_parameters.reason_code" "&reason_code" 2]) /\
+    rho' "deauth->frame_header.frame_control.type" = c_TYPE_MANAGEMENT /\
+    rho' "deauth->frame_header.frame_control.subtype" = c_SUBTYPE_DEAUTH /\
+    rho' "deauth->fixed_parameters.reason_code" = reason /\
+    rho' "deauth->tags.length" = 0 /\ rho' "deauth->tags.parameters" = 0 /\
+    reads_zero rho' "deauth->frame_header." mgmt_rest /\
+    untouched "deauth->"
+      ["deauth->frame_header.frame_control.type"; "deauth->frame_header.frame_control.subtype"; "deauth->fixed_parameters.reason_code"]
+      ["deauth->frame_header.addr1"; "deauth->frame_header.addr2"; "deauth->frame_header.addr3"] rho'.
+Proof. exact code_create_deauth. Qed.
+Print Assumptions c03_code_create_deauth.
+
+Theorem c03_code_create_disassoc : forall m rho reason,
+  0 <= reason < 65536 ->
+  let rho0 := upd rho "reason_code" reason in
+  exists rho',
+    exec 40 m rho0 [] body_libwifi_create_disassoc =
+      Returned (Some 0) rho'
+        (mgmt_events rho "disassoc" sizeof_libwifi_disassoc "receiver" "transmitter" "address3" ++
+         [ev_memcpy rho "&disassoc->fixed_parameters.reason_code" "&reason_code" 2]) /\
+    rho' "disassoc->frame_header.frame_control.type" = c_TYPE_MANAGEMENT /\
+    rho' "disassoc->frame_header.frame_control.subtype" = c_SUBTYPE_DISASSOC /\
+    rho' "disassoc->fixed_parameters.reason_code" = reason /\
+    rho' "disassoc->tags.length" = 0 /\ rho' "disassoc->tags.parameters" = 0 /\
+    reads_zero rho' "disassoc->frame_header." mgmt_rest /\
+    untouched "disassoc->"
+      ["disassoc->frame_header.frame_control.type"; "disassoc->frame_header.frame_control.subtype";
+       "disassoc->fixed_parameters.reason_code"]
+      ["disassoc->frame_header.addr1"; "disassoc->frame_header.addr2"; "disassoc->frame_header.addr3"] rho'.
+Proof. exact code_create_disassoc. Qed.
+Print Assumptions c03_code_create_disassoc.
+
+Theorem c03_code_create_rts : forall m rho dur,
+  0 <= dur < 65536 ->
+  let rho0 := upd rho "duration" dur in
+  exists rho',
+    exec 40 m rho0 [] body_libwifi_create_rts =
+      Returned (Some 0) rho'
+        [ev_memset rho "rts" sizeof_libwifi_rts;
+         ev_memcpy rho "&rts->transmitter_addr" "transmitter" 6;
+         ev_memcpy rho "&rts->receiver_addr" "receiver" 6] /\
+    rho' "rts->frame_header.frame_control.type" = c_TYPE_CONTROL /\
+    rho' "rts->frame_header.frame_control.subtype" = c_SUBTYPE_RTS /\
+    rho' "rts->frame_header.duration" = dur /\
+    reads_zero rho' "rts->frame_header." ctrl_rest /\
+    untouched "rts->"
+      ["rts->frame_header.frame_control.type"; "rts->frame_header.frame_control.subtype"; "rts->frame_header.duration"]
+      ["rts->transmitter_addr"; "rts->receiver_addr"] rho'.
+Proof. exact code_create_rts. Qed.
+Print Assumptions c03_code_create_rts.
+
+Theorem c03_code_create_cts : forall m rho dur,
+  0 <= dur < 65536 ->
+  let rho0 := upd rho "duration" dur in
+  exists rho',
+    exec 40 m rho0 [] body_libwifi_create_cts =
+      Returned (Some 0) rho'
+        [ev_memset rho "cts" sizeof_libwifi_cts; ev_memcpy rho "&cts->receiver_addr" "receiver" 6] /\
+    rho' "cts->frame_header.frame_control.type" = c_TYPE_CONTROL /\
+    rho' "cts->frame_header.frame_control.subtype" = c_SUBTYPE_CTS /\
+    rho' "cts->frame_header.duration" = dur /\
+    reads_zero rho' "cts->frame_header." ctrl_rest /\
+    untouched "cts->"
+      ["cts->frame_header.frame_control.type"; "cts->frame_header.frame_control.subtype"; "cts->frame_header.duration"]
+      ["cts->receiver_addr"] rho'.
+Proof. exact code_create_cts. Qed.
+Print Assumptions c03_code_create_cts.
+
+Theorem c03_code_create_assoc_req : forall m rho n r,
+  0 <= n < 2 ^ 64 -> - 2 ^ 31 <= r < 2 ^ 31 ->
+  let rho0 := upd (upd rho "ret:strlen" n) "ret:libwifi_quick_add_tag" r in
+  exists rho',
+    exec 40 m rho0 [] body_libwifi_create_assoc_req =
+      Returned (Some r) rho'
+        (mgmt_events rho "assoc_req" sizeof_libwifi_assoc_req "receiver" "transmitter" "address3" ++
+         [("strlen", [wrap u64 (rho "ssid")]); ev_add_tag rho "&assoc_req->tags" c_TAG_SSID "ssid" n] ++
+         (if r =? 0 then [ev_add_tag rho "&assoc_req->tags" c_TAG_DS_PARAMETER "&channel" 1] else [])) /\
+    rho' "assoc_req->frame_header.frame_control.type" = c_TYPE_MANAGEMENT /\
+    rho' "assoc_req->frame_header.frame_control.subtype" = c_SUBTYPE_ASSOC_REQ /\
+    rho' "assoc_req->fixed_parameters.capabilities_information" = c_LIBWIFI_DEFAULT_AP_CAPABS /\
+    rho' "assoc_req->fixed_parameters.listen_interval" = c_LIBWIFI_DEFAULT_LISTEN_INTERVAL /\
+    reads_zero rho' "assoc_req->frame_header." mgmt_rest /\
+    untouched "assoc_req->"
+      ["assoc_req->frame_header.frame_control.type"; "assoc_req->frame_header.frame_control.subtype";
+       "assoc_req->fixed_parameters.capabilities_information"; "assoc_req->fixed_parameters.listen_interval"]
+      ["assoc_req->frame_header.addr1"; "assoc_req->frame_header.addr2"; "assoc_req->frame_header.addr3"; "assoc_req->tags"] rho'.
+Proof. exact code_create_assoc_req. Qed.
+Print Assumptions c03_code_create_assoc_req.
+
+Theorem c03_code_create_probe_req : forall m rho n r,
+  0 <= n < 2 ^ 64 -> - 2 ^ 31 <= r < 2 ^ 31 ->
+  let rho0 := upd (upd rho "ret:strlen" n) "ret:libwifi_quick_add_tag" r in
+  exists rho',
+    exec 40 m rho0 [] body_libwifi_create_probe_req =
+      Returned (Some r) rho'
+        (mgmt_events rho "probe_req" sizeof_libwifi_probe_req "receiver" "transmitter" "address3" ++
+         [("strlen", [wrap u64 (rho "ssid")]); ev_add_tag rho "&probe_req->tags" c_TAG_SSID "ssid" n] ++
+         (if r =? 0 then [ev_add_tag rho "&probe_req->tags" c_TAG_DS_PARAMETER "&channel" 1] else [])) /\
+    rho' "probe_req->frame_header.frame_control.type" = c_TYPE_MANAGEMENT /\
+    rho' "probe_req->frame_header.frame_control.subtype" = c_SUBTYPE_PROBE_REQ /\
+    reads_zero rho' "probe_req->frame_header." mgmt_rest /\
+    untouched "probe_req->"
+      ["probe_req->frame_header.frame_control.type"; "probe_req->frame_header.frame_control.subtype"]
+      ["probe_req->frame_header.addr1"; "probe_req->frame_header.addr2"; "probe_req->frame_header.addr3"; "probe_req->tags"] rho'.
+Proof. exact code_create_probe_req. Qed.
+Print Assumptions c03_code_create_probe_req.
+
+Theorem c03_code_create_reassoc_req : forall m rho n r,
+  0 <= n < 2 ^ 64 -> - 2 ^ 31 <= r < 2 ^ 31 ->
+  let rho0 := upd (upd rho "ret:strlen" n) "ret:libwifi_quick_add_tag" r in
+  exists rho',
+    exec 40 m rho0 [] body_libwifi_create_reassoc_req =
+      Returned (Some r) rho'
+        (mgmt_events rho "reassoc_req" sizeof_libwifi_reassoc_req "receiver" "transmitter" "address3" ++
+         [ev_memcpy rho "&reassoc_req->fixed_parameters.current_ap_address" "current_ap" 6;
+          ("strlen", [wrap u64 (rho "ssid")]); ev_add_tag rho "&reassoc_req->tags" c_TAG_SSID "ssid" n] ++
+         (if r =? 0 then [ev_add_tag rho "&reassoc_req->tags" c_TAG_DS_PARAMETER "&channel" 1] else [])) /\
+    rho' "reassoc_req->frame_header.frame_control.type" = c_TYPE_MANAGEMENT /\
+    rho' "reassoc_req->frame_header.frame_control.subtype" = c_SUBTYPE_REASSOC_REQ /\
+    rho' "reassoc_req->fixed_parameters.capabilities_information" = c_LIBWIFI_DEFAULT_AP_CAPABS /\
+    rho' "reassoc_req->fixed_parameters.listen_interval" = c_LIBWIFI_DEFAULT_LISTEN_INTERVAL /\
+    reads_zero rho' "reassoc_req->frame_header." mgmt_rest /\
+    untouched "reassoc_req->"
+      ["reassoc_req->frame_header.frame_control.type"; "reassoc_req->frame_header.frame_control.subtype";
+       "reassoc_req->fixed_parameters.capabilities_information"; "reassoc_req->fixed_parameters.listen_interval"]
+      ["reassoc_req->frame_header.addr1"; "reassoc_req->frame_header.addr2"; "reassoc_req->frame_header.addr3";
+       "reassoc_req->fixed_parameters.current_ap_address"; "reassoc_req->tags"] rho'.
+Proof. exact code_create_reassoc_req. Qed.
+Print Assumptions c03_code_create_reassoc_req.
+
+Theorem c03_code_create_beacon : forall m rho now s c ch,
+  0 <= now < 2 ^ 64 -> - 2 ^ 31 <= s < 2 ^ 31 -> - 2 ^ 31 <= c < 2 ^ 31 -> 0 <= ch < 256 ->
+  let rho0 := upd (upd (upd (upd rho "ret:libwifi_get_epoch" now) "ret:libwifi_set_beacon_ssid" s)
+                     "ret:libwifi_set_beacon_channel" c) "channel" ch in
+  exists rho',
+    exec 40 m rho0 [] body_libwifi_create_beacon =
+      Returned (Some (if s =? 0 then c else s)) rho'
+        (mgmt_events rho "beacon" sizeof_libwifi_beacon "receiver" "transmitter" "address3" ++
+         [("libwifi_get_epoch", []); ("libwifi_set_beacon_ssid", [wrap u64 (rho "beacon"); wrap u64 (rho "ssid")])] ++
+         (if s =? 0 then [("libwifi_set_beacon_channel", [wrap u64 (rho "beacon"); ch])] else [])) /\
+    rho' "beacon->frame_header.frame_control.type" = c_TYPE_MANAGEMENT /\
+    rho' "beacon->frame_header.frame_control.subtype" = c_SUBTYPE_BEACON /\
+    rho' "beacon->fixed_parameters.timestamp" = now /\
+    rho' "beacon->fixed_parameters.beacon_interval" = c_LIBWIFI_DEFAULT_BEACON_INTERVAL /\
+    rho' "beacon->fixed_parameters.capabilities_information" = c_LIBWIFI_DEFAULT_AP_CAPABS /\
+    reads_zero rho' "beacon->frame_header." mgmt_rest /\
+    untouched "beacon->"
+      ["beacon->frame_header.frame_control.type"; "beacon->frame_header.frame_control.subtype";
+       "beacon->fixed_parameters.timestamp"; "beacon->fixed_parameters.beacon_interval";
+       "beacon->fixed_parameters.capabilities_information"]
+      ["beacon->frame_header.addr1"; "beacon->frame_header.addr2"; "beacon->frame_header.addr3"; "beacon->tags"] rho'.
+Proof. exact code_create_beacon. Qed.
+Print Assumptions c03_code_create_beacon.
+
+Theorem c03_code_create_probe_resp : forall m rho now s c ch,
+  0 <= now < 2 ^ 64 -> - 2 ^ 31 <= s < 2 ^ 31 -> - 2 ^ 31 <= c < 2 ^ 31 -> 0 <= ch < 256 ->
+  let rho0 := upd (upd (upd (upd rho "ret:libwifi_get_epoch" now) "ret:libwifi_set_probe_resp_ssid" s)
+                     "ret:libwifi_set_probe_resp_channel" c) "channel" ch in
+  exists rho',
+    exec 40 m rho0 [] body_libwifi_create_probe_resp =
+      Returned (Some (if s =? 0 then c else s)) rho'
+        (mgmt_events rho "probe_resp" sizeof_libwifi_probe_resp "receiver" "transmitter" "address3" ++
+         [("libwifi_get_epoch", []); ("libwifi_set_probe_resp_ssid", [wrap u64 (rho "probe_resp"); wrap u64 (rho "ssid")])] ++
+         (if s =? 0 then [("libwifi_set_probe_resp_channel", [wrap u64 (rho "probe_resp"); ch])] else [])) /\
+    rho' "probe_resp->frame_header.frame_control.type" = c_TYPE_MANAGEMENT /\
+    rho' "probe_resp->frame_header.frame_control.subtype" = c_SUBTYPE_PROBE_RESP /\
+    rho' "probe_resp->fixed_parameters.timestamp" = now /\
+    rho' "probe_resp->fixed_parameters.probe_resp_interval" = c_LIBWIFI_DEFAULT_BEACON_INTERVAL /\
+    rho' "probe_resp->fixed_parameters.capabilities_information" = c_LIBWIFI_DEFAULT_AP_CAPABS /\
+    reads_zero rho' "probe_resp->frame_header." mgmt_rest /\
+    untouched "probe_resp->"
+      ["probe_resp->frame_header.frame_control.type"; "probe_resp->frame_header.frame_control.subtype";
+       "probe_resp->fixed_parameters.timestamp"; "probe_resp->fixed_parameters.probe_resp_interval";
+       "probe_resp->fixed_parameters.capabilities_information"]
+      ["probe_resp->frame_header.addr1"; "probe_resp->frame_header.addr2"; "probe_resp->frame_header.addr3"; "probe_resp->tags"] rho'.
+Proof. exact code_create_probe_resp. Qed.
+Print Assumptions c03_code_create_probe_resp.
+
+Theorem c03_code_create_assoc_resp : forall m rho s r ch,
+  - 2 ^ 31 <= s < 2 ^ 31 -> - 2 ^ 31 <= r < 2 ^ 31 -> 0 <= ch < 256 ->
+  let rho0 := upd (upd (upd rho "ret:libwifi_set_assoc_resp_channel" s) "ret:libwifi_quick_add_tag" r) "channel" ch in
+  exists rho',
+    exec 40 m rho0 [] body_libwifi_create_assoc_resp =
+      Returned (Some (if s =? 0 then r else s)) rho'
+        (mgmt_events rho "assoc_resp" sizeof_libwifi_assoc_resp "receiver" "transmitter" "address3" ++
+         [("libwifi_set_assoc_resp_channel", [wrap u64 (rho "assoc_resp"); ch])] ++
+         (if s =? 0 then [ev_add_tag rho "&assoc_resp->tags" c_TAG_SUPP_RATES "&supported_rates"
+                            (Z.of_nat (List.length c_LIBWIFI_DEFAULT_SUPP_RATES))] else [])) /\
+    rho' "assoc_resp->frame_header.frame_control.type" = c_TYPE_MANAGEMENT /\
+    rho' "assoc_resp->frame_header.frame_control.subtype" = c_SUBTYPE_ASSOC_RESP /\
+    rho' "assoc_resp->fixed_parameters.capabilities_information" = c_LIBWIFI_DEFAULT_AP_CAPABS /\
+    rho' "assoc_resp->fixed_parameters.status_code" = c_STATUS_SUCCESS /\
+    rho' "assoc_resp->fixed_parameters.association_id" = 0 /\
+    reads_zero rho' "assoc_resp->frame_header." mgmt_rest /\
+    untouched "assoc_resp->"
+      ["assoc_resp->frame_header.frame_control.type"; "assoc_resp->frame_header.frame_control.subtype";
+       "assoc_resp->fixed_parameters.capabilities_information"; "assoc_resp->fixed_parameters.status_code"]
+      ["assoc_resp->frame_header.addr1"; "assoc_resp->frame_header.addr2"; "assoc_resp->frame_header.addr3"; "assoc_resp->tags"] rho'.
+Proof. exact code_create_assoc_resp. Qed.
+Print Assumptions c03_code_create_assoc_resp.
+
+Theorem c03_code_create_reassoc_resp : forall m rho s ch,
+  - 2 ^ 31 <= s < 2 ^ 31 -> 0 <= ch < 256 ->
+  let rho0 := upd (upd rho "ret:libwifi_set_reassoc_resp_channel" s) "channel" ch in
+  exists rho',
+    exec 40 m rho0 [] body_libwifi_create_reassoc_resp =
+      Returned (Some s) rho'
+        (mgmt_events rho "reassoc_resp" sizeof_libwifi_reassoc_resp "receiver" "transmitter" "address3" ++
+         [("libwifi_set_reassoc_resp_channel", [wrap u64 (rho "reassoc_resp"); ch])]) /\
+    rho' "reassoc_resp->frame_header.frame_control.type" = c_TYPE_MANAGEMENT /\
+    rho' "reassoc_resp->frame_header.frame_control.subtype" = c_SUBTYPE_REASSOC_RESP /\
+    rho' "reassoc_resp->fixed_parameters.capabilities_information" = c_LIBWIFI_DEFAULT_AP_CAPABS /\
+    rho' "reassoc_resp->fixed_parameters.status_code" = c_STATUS_SUCCESS /\
+    rho' "reassoc_resp->fixed_parameters.association_id" = 0 /\
+    reads_zero rho' "reassoc_resp->frame_header." mgmt_rest /\
+    untouched "reassoc_resp->"
+      ["reassoc_resp->frame_header.frame_control.type"; "reassoc_resp->frame_header.frame_control.subtype";
+       "reassoc_resp->fixed_parameters.capabilities_information"; "reassoc_resp->fixed_parameters.status_code"]
+      ["reassoc_resp->frame_header.addr1"; "reassoc_resp->frame_header.addr2"; "reassoc_resp->frame_header.addr3";
+       "reassoc_resp->tags"] rho'.
+Proof. exact code_create_reassoc_resp. Qed.
+Print Assumptions c03_code_create_reassoc_resp.
+
+Theorem c03_code_create_timing_advert_null : forall m rho now mrp mtp tpu nf,
+  0 <= now < 2 ^ 64 -> 0 <= mrp < 65536 -> 0 <= mtp < 256 -> 0 <= tpu < 256 -> 0 <= nf < 256 ->
+  let rho0 := ta_args rho now mrp mtp tpu nf 0 in
+  exists rho',
+    exec 60 m rho0 [] body_libwifi_create_timing_advert = Returned (Some (-22)) rho' (ta_events rho) /\
+    ta_fields rho' now mrp mtp tpu nf.
+Proof. exact code_create_timing_advert_null. Qed.
+Print Assumptions c03_code_create_timing_advert_null.
+
+Theorem c03_code_create_timing_advert : forall m rho now mrp mtp tpu nf af tc e r,
+  0 <= now < 2 ^ 64 -> 0 <= mrp < 65536 -> 0 <= mtp < 256 -> 0 <= tpu < 256 -> 0 <= nf < 256 ->
+  0 < af < 2 ^ 64 -> 0 <= tc < 256 -> 0 <= e -> e + 17 < 2 ^ 63 -> - 2 ^ 31 <= r < 2 ^ 31 ->
+  let rho0 := upd (upd (upd (ta_args rho now mrp mtp tpu nf af) "adv_fields->timing_capabilities" tc) "&element_data" e)
+                "ret:libwifi_quick_add_tag" r in
+  let copy dst src n : event := ("memcpy", [dst; wrap u64 (rho src); n]) in
+  let copies :=
+    if tc =? 1 then [copy (e + 1) "&adv_fields->time_value" 10; copy (e + 11) "&adv_fields->time_error" 5]
+    else if tc =? 2 then [copy (e + 1) "&adv_fields->time_value" 10; copy (e + 11) "&adv_fields->time_error" 5;
+                          copy (e + 16) "&adv_fields->time_update" 1]
+    else [] in
+  let len := if tc =? 1 then 16 else if tc =? 2 then 17 else 1 in
+  exists rho',
+    exec 60 m rho0 [] body_libwifi_create_timing_advert =
+      Returned (Some r) rho'
+        (ta_events rho ++ [copy e "&adv_fields->timing_capabilities" 1] ++ copies ++
+         [("libwifi_quick_add_tag", [wrap u64 (rho "&adv->tags"); c_TAG_TIME_ADVERTISEMENT; e; len])]) /\
+    ta_fields rho' now mrp mtp tpu nf.
+Proof. exact code_create_timing_advert. Qed.
+Print Assumptions c03_code_create_timing_advert.
+
